@@ -26,7 +26,7 @@ class Check(RuntimeCheck):
             for masks in itertools.product(range(8), repeat=npat):
                 if tier == 'quick' and npat == 3 and (masks[0] + 3 * masks[1] + 5 * masks[2]) % 4 != 0:
                     continue
-                for form in range(3):
+                for form in range(4 if npat > 1 else 3):
                     pats = [Pat(mask=m, chain=[seg(f"ret{10 * (i + 1)}")]) for i, m in enumerate(masks)]
                     if form == 0:
                         tree = tup([term(1, 'each', p) for p in pats]) if npat > 1 else term(1, 'each', pats[0])
@@ -35,10 +35,16 @@ class Check(RuntimeCheck):
                         if k % 4 == 1 and npat > 1:
                             pats[0] = Pat(mask=pats[0].mask, chain=[])
                         tree = stub(1, pats)
-                    else:
+                    elif form == 2:
                         kinds = ['each', 'some', 'each']
                         pats2 = [Pat(mask=p.mask, chain=[seg(p.chain[0][0], 'al0')]) for p in pats]
                         tree = tup([term(1, kinds[i % 3], p) for i, p in enumerate(pats2)])
+                    else:
+                        # exactly-quantified patterns: a pattern that has used up its count still answers the calls it accepts first
+                        pats3 = [Pat(mask=p.mask, chain=[seg(p.chain[0][0], 'n1')]) for p in pats if p.chain]
+                        if len(pats3) < 2:
+                            continue
+                        tree = tup([term(1, 'some', p) for p in pats3])
                     # one history that walks the domain in a mask-dependent order
                     hist = [(masks[0] + j) % 3 for j in range(L)]
                     for mode in (['strict', 'partial'] if form == 0 else ['strict']):
